@@ -319,4 +319,64 @@ theorem condLoop_eq_spec (s : List Outcome) (cond : Option (List Bool)) (ignore 
   simp only [List.nil_append, Nat.sub_zero, List.range_eq_range']
   rfl
 
+/-! ### the stopping attempt of the conditional back-off retry -/
+
+/-- the attempt at which the conditional back-off retry stops -/
+def stopAttempt (s : List Outcome) (cond : Option (List Bool)) (ig : List Nat) (mr : Int) : Nat :=
+  firstIdx (condStop s cond ig mr) s.length
+
+theorem stopAttempt_le_maxRetries (s : List Outcome) (cond : Option (List Bool)) (ig : List Nat) (mr : Int) :
+    stopAttempt s cond ig mr ≤ mr.toNat := by
+  unfold stopAttempt
+  refine Decidable.byContradiction fun h => ?_
+  have hlt : mr.toNat < firstIdx (condStop s cond ig mr) s.length := by omega
+  have := firstIdx_not _ _ _ hlt
+  unfold condStop at this
+  cases hc : condAt cond mr.toNat with
+  | false => rw [hc] at this; simp at this
+  | true =>
+    rw [hc] at this
+    cases ho : outcomeAt s mr.toNat with
+    | none => rw [ho] at this; simp at this
+    | some e =>
+      rw [ho] at this
+      simp at this
+      omega
+
+theorem stopAttempt_le_firstOk (s : List Outcome) (cond : Option (List Bool)) (ig : List Nat) (mr : Int) :
+    stopAttempt s cond ig mr ≤ firstOk s := by
+  unfold stopAttempt
+  refine Decidable.byContradiction fun h => ?_
+  have hlt : firstOk s < firstIdx (condStop s cond ig mr) s.length := by omega
+  have := firstIdx_not _ _ _ hlt
+  rw [condStop_of_none s cond ig mr _ (firstOk_none s)] at this
+  exact absurd this (by decide)
+
+theorem condRetry_calls_le (s : List Outcome) (cond : Option (List Bool)) (ig : List Nat) (mr : Int)
+    (d : Nat → Int) : (MV.Spec.Retry.condRetry s cond ig mr d).calls ≤ stopAttempt s cond ig mr + 1 := by
+  unfold MV.Spec.Retry.condRetry stopAttempt
+  simp only []
+  split
+  · simp
+  · split
+    · simp
+    · split <;> simp
+
+/-- the closed form when the attempt `r` is known to be the first stopping one -/
+theorem condRetry_at (s : List Outcome) (cond : Option (List Bool)) (ig : List Nat) (mr : Int) (d : Nat → Int)
+    (r : Nat) (hgo : ∀ j, j < r → condStop s cond ig mr j = false) (hstop : condStop s cond ig mr r = true) :
+    MV.Spec.Retry.condRetry s cond ig mr d = condResult s cond ig r ((List.range r).map d) := by
+  have hr : r ≤ s.length := by
+    refine Decidable.byContradiction fun h => ?_
+    have := hgo s.length (by omega)
+    rw [condStop_of_none s cond ig mr _ (outcomeAt_length s _ (Nat.le_refl _))] at this
+    exact absurd this (by decide)
+  have hidx : firstIdx (condStop s cond ig mr) s.length = r :=
+    firstIdx_eq_of _ _ _ hr hgo (fun _ => hstop)
+  unfold MV.Spec.Retry.condRetry condResult
+  simp only []
+  rw [hidx]
+  rfl
+
+
 end MV.Lemmas.Retry
